@@ -15,9 +15,10 @@ import Mathlib.Tactic.SplitIfs
     `get_unit` and `get_conversion_factor`.
 
     `genStep_eq`: `genStep w op = Iso.step w op` whenever `OpDom w op` — the domain of `addUnit_tie` (no `dimensionless`
-    mixed with dimensional units and no multiplier ≤ 0: the model abstains; no unknown name with total exponent zero:
-    model and code DISAGREE). For `newStore`, `addBase`, and for definitions refused for an offset or a malformed
-    number, there is no condition. -/
+    mixed with dimensional units and no multiplier ≤ 0: the model ABSTAINS there). For `newStore`, `addBase`, for
+    definitions refused for an offset or a malformed number, and — since the repair of the hand model,
+    notes/reports/MODELFIX_Units.md — for unknown names with a total exponent of zero and for any order of a bad name and
+    a bad expression, there is no condition: model and code agree. -/
 
 set_option linter.unusedSimpArgs false
 
@@ -104,21 +105,20 @@ def genCrossFactor (w : World) (i : Nat) (x : String) (j : Nat) (y : String) : E
 
 /-! ### the domain on which `add_unit` and the hand model agree -/
 
-/-- the domain of `addUnit_tie` (`hsup`, `hz`) for a definition whose text has a value in the hand model.
+/-- the domain of `addUnit_tie` (`hsup`) for a definition whose text has a value in the hand model.
     A definition the hand model refuses as `unsupported` (a zero or negative multiplier: outside its number fragment;
     the CODE defines such a unit) is outside; one it refuses for an offset or a malformed number is inside (the code
     raises as well: `gen_addUnit_defErr`). -/
-def AddDom (reg : Registry) (st : Store) (elems : List UnitElem) : Prop :=
+def AddDom (_reg : Registry) (st : Store) (elems : List UnitElem) : Prop :=
   match defMeaning st.id elems with
-  | .ok (_, c, d) => ¬ (norm c ≠ [] ∧ d = true) ∧ allKnown reg c = allKnown reg (norm c)
+  | .ok (_, c, d) => ¬ (norm c ≠ [] ∧ d = true)
   | .error (.unsupported _) => False
   | .error _ => True
 
 instance (reg : Registry) (st : Store) (elems : List UnitElem) : Decidable (AddDom reg st elems) :=
   match h : defMeaning st.id elems with
   | .ok (_, c, d) =>
-      decidable_of_iff (¬ (norm c ≠ [] ∧ d = true) ∧ allKnown reg c = allKnown reg (norm c))
-        (by unfold AddDom; rw [h])
+      decidable_of_iff (¬ (norm c ≠ [] ∧ d = true)) (by unfold AddDom; rw [h])
   | .error (.unsupported _) => isFalse (by unfold AddDom; rw [h]; exact id)
   | .error .offset => isTrue (by unfold AddDom; rw [h]; trivial)
   | .error (.badNumber _) => isTrue (by unfold AddDom; rw [h]; trivial)
@@ -160,9 +160,11 @@ instance (w : World) (ops : List Op) : Decidable (RunDom w ops) := decRunDom ops
 
 theorem model_addUnit_defErr (reg : Registry) (st : Store) (name : String) (elems : List UnitElem) (e : DefErr)
     (hdef : defMeaning st.id elems = .error e) : ∃ e', Units.addUnit reg st name elems = .error e' := by
-  unfold Units.addUnit
-  rw [hdef]
-  cases e <;> exact ⟨_, rfl⟩
+  cases h : Units.addUnit reg st name elems with
+  | error e' => exact ⟨e', rfl⟩
+  | ok r =>
+    obtain ⟨k, c, md, hd, _⟩ := Units.addUnit_ok h
+    rw [hdef] at hd; cases hd
 
 /-- a definition whose text has no value (bad number, offset): the generated `add_unit` raises (one of the three
     name tests, or pint's parser) -/
@@ -206,7 +208,7 @@ theorem genApplyTo_addUnit (w : World) (s : Nat) (name : String) (elems : List U
     | ok q =>
       obtain ⟨k, c, d⟩ := q
       simp only [AddDom, hdef] at hd
-      rw [addUnit_tie st reg [] name elems k c d hdef hd.1 hd.2]
+      rw [addUnit_tie st reg [] name elems k c d hdef hd]
       cases Units.addUnit reg st name elems with
       | error e => rfl
       | ok r =>
